@@ -45,4 +45,25 @@ PROPS = {
              "thorough": {}},
         assumptions=[DOMAIN, ALIGN],
     ),
+    "C05": dict(
+        level="exploration",
+        stages=native(48000, 960000),
+        rule="case = one mapping line: (a) printed from a record AST with every combination of optional parts and 4 terminators, (b) one of the documented malformed derivations of such a line, (c) every token string of length <= 5 (quick) / 6 (thorough) over the 12-token alphabet, (d) every non-blank corpus line, each through ProguardRecord::try_parse and ProguardMapping::iter; oracle = the AST or the reference line parser R; distinct = distinct line text; non-trivial = the line is well-formed or documented-malformed (lines R classifies 'neither' only get the totality check)",
+        min={"quick": {"corpus_wellformed": 30000, "exhaustive_wellformed": 10000, "exhaustive_malformed": 10000, "malformed_bad_indentation": 1000,
+                       "malformed_start_without_end": 1000, "malformed_missing_return_type": 1000, "malformed_missing_class_colon": 1000,
+                       "malformed_unspaced_arrow": 1000, "malformed_missing_arrow": 1000, "malformed_catalogue": 35, "files_checked": 1000},
+             "thorough": {}},
+        exhaustive_note="all token strings of length <= 5 (quick: 271,453 lines) / <= 6 (thorough: 3,257,437 lines) over the 12-token alphabet are enumerated completely, partitioned over the shards; all 39,929 non-blank corpus lines",
+        assumptions=["identifiers never start with a digit; lines R cannot classify (tokens outside the identifier alphabet, four spaces followed by a tab) only get the totality check",
+                     "'carrying the offending line' is compared modulo trailing line terminators"],
+    ),
+    "C06": dict(
+        level="exploration",
+        stages=native(160000, 3200000),
+        rule="case = byte string X (invariants: termination, <= 1 item per byte, no line terminator inside any yielded field) or pair (A, sep, B) for the concatenation law on complete item sequences; inputs: random bytes, token soups, invalid UTF-8, Latin-1 numerics, 30-digit runs, unterminated sourceFile headers, hostile ASTs, token-mutated files, corpus split points; all strings of length <= 6 (quick) / 7 (thorough) over a 9-symbol alphabet, all A of length <= 4 / 5 x 20 probe files B; distinct = distinct A+sep+B with both sides yielding items",
+        min={"quick": {"law_applications": 100000, "inputs_with_error_and_record": 10000, "inputs_with_invalid_utf8": 1000, "exhaustive_strings": 500000, "corpus_split_points": 50},
+             "thorough": {}},
+        exhaustive_note="all strings of length <= 6 (597,871) / <= 7 (5,380,840) over {a,1,space,:,(,),-,>,LF} for the invariants; all A of length <= 4 (7,381) / <= 5 (66,430) x 20 probe files for the law",
+        assumptions=["the law is checked under its literal reading (records and errors; an error is identified by its line without terminators); the weaker Ok-records-only reading is reported alongside"],
+    ),
 }
